@@ -10,8 +10,17 @@ RULE = ("pictures obtained through the public reader from Python-encoded BMPs: h
         "Tileset.Spec.encode; Python-encoded custom files loaded (ts.load); pictures and custom headers violating each tileset "
         "constraint; the detector at every position of streams built from the signature, its one-byte variants, prefixes, "
         "shifted copies and random words (ts.peek)")
-PROVED = "see lean/Op2Proofs/Props/C09.lean and notes/bmp.md"
-PARTIAL = "see notes/bmp.md"
+PROVED = ("C09_bytes (for every valid picture object: writeCustom f = Spec.encode (picture f), the frozen independent description) and "
+          "C09_bytes_function_of_picture; C09_custom_rt (save custom, ReadTileset: the object built from the same picture, top-down, palette = "
+          "original padded with black, picture equal); C09_bmp_same (WriteIndexed then ReadTileset: same picture, same signed height, same pixels); "
+          "C09_peek (on every MemoryReader state satisfying its invariant: answer = next four bytes are PBMP, error iff fewer than four remain, "
+          "reader returned exactly as it was - through the u64 guards of the C12 model); C09_dispatch; C09_refuse (constraint-violating picture: save "
+          "refused; ReadTileset never returns one from ANY bytes in either format; stored as a standard bitmap it is refused on load); "
+          "Tileset.spec_read (the loader accepts every Spec-encoded file).  Bridging: C09_gen_layout (34 measured offsets/sizes/constants/tags), "
+          "C09_spec_constants")
+PARTIAL = ("C09_custom_rt assumes 32*|height| <= the 1 GiB harness allocation cap; C09_bmp_same is stated for objects with the reader's invariants "
+           "(everything ReadIndexed / ReadTileset / the factories return), not for hand-assembled records; the PBMP length formula and the pixel "
+           "section length are tied to the source by the byte comparison only (not extracted)")
 TRUSTED = []
 ASSUMPTIONS = ["streams are MemoryReader / DynamicMemoryWriter (C12/C14 carry the statement to the other backends)"]
 
